@@ -7,6 +7,7 @@ events (audit hook), hashes of the inputs."""
 import hashlib
 import json
 import os
+import re
 import shutil
 import sys
 import tempfile
@@ -51,10 +52,28 @@ def install_hook():
         _hook_installed[0] = True
 
 
+def make_filter(table, file_verdict="error"):
+    """a project filter: verdict per entity key from `table` (default "error"), `file_verdict` for the file itself;
+    the dummy key "" of Observer.updateStats is never ignored"""
+    def flt(file, entity=None):
+        if entity is None:
+            return file_verdict
+        if entity == "":
+            return "error"
+        k = entity if isinstance(entity, str) else json.dumps(list(entity), ensure_ascii=False)
+        return table.get(k, "error")
+    return flt
+
+
 class Recording(ContentComparer):
-    def __init__(self):
-        super().__init__()
-        self.observers.append(Observer())
+    def __init__(self, quiet=0, filters=None):
+        """filters: None = one Observer() as in a plain run; else one Observer(quiet, filter) per entry (entry None = no filter)"""
+        super().__init__(quiet)
+        if filters is None:
+            self.observers.append(Observer(quiet=quiet))
+        else:
+            for f in filters:
+                self.observers.append(Observer(quiet=quiet, filter=f))
         self.merge_calls = []
 
     def merge(self, ref_entities, ref_file, l10n_file, merge_file, missing, skips, ctx, capabilities, encoding):
@@ -81,6 +100,16 @@ class Recording(ContentComparer):
         return super().merge(ref_entities, ref_file, l10n_file, merge_file, missing, skips, ctx, capabilities, encoding)
 
 
+def _flat(d):
+    out = []
+    if isinstance(d, list):
+        out.extend(x for x in d if isinstance(x, dict))
+    elif isinstance(d, dict):
+        for v in d.values():
+            out.extend(_flat(v))
+    return out
+
+
 def sha(path):
     with open(path, "rb") as f:
         return hashlib.sha256(f.read()).hexdigest()
@@ -96,13 +125,18 @@ def listing(root):
     return sorted(out)
 
 
+def decode_like_readfile(data):
+    """what Parser.readFile hands to the parser, computed WITHOUT it: UTF-8 with U+FFFD, universal newlines"""
+    return re.sub("\r\n?", "\n", data.decode("utf-8", "replace"))
+
+
 def parse_entities(fmt_file, data):
     """independent parse with a fresh parser object: entities (key, raw_val) and junk texts"""
     try:
         p = type(parser.getParser(fmt_file))()
     except UserWarning:
         return None
-    p.readContents(data)
+    p.readUnicode(decode_like_readfile(data))
     ents, junk = [], []
     for e in p:
         if isinstance(e, parser.Junk):
@@ -121,10 +155,10 @@ def check_errors(fname, ref_data, l10n_data):
         p = type(parser.getParser(fname))()
     except UserWarning:
         return []
-    p.readContents(ref_data)
+    p.readUnicode(decode_like_readfile(ref_data))
     ref = p.parse()
     p2 = type(parser.getParser(fname))()
-    p2.readContents(l10n_data)
+    p2.readUnicode(decode_like_readfile(l10n_data))
     l10n = p2.parse()
     f = File(fname, fname, locale="xx")
     checker = getChecker(f, extra_tests=None)
@@ -152,9 +186,17 @@ def to_bytes(x, latin=False):
     return x.encode("utf-8", "surrogatepass")
 
 
-def impl_compare_merge(fmt, ref_text, l10n_text, mode="compare", latin=False, with_merge=True):
-    """mode: compare | add (l10n missing) | remove (reference missing)"""
+def impl_compare_merge(fmt, ref_text, l10n_text, mode="compare", latin=False, with_merge=True, opts=None):
+    """mode: compare | add (l10n missing) | remove (reference missing)
+    latin=True: the texts are BYTES transported as latin-1 strings.
+    opts: quiet (0-4), verdicts (list, one per project observer: {key: verdict} or None = no filter), file_verdict,
+          ref_is_dir / l10n_is_dir (the path is a directory: read error), baseline (also run with quiet 0)"""
     install_hook()
+    opts = opts or {}
+    quiet = int(opts.get("quiet", 0))
+    filters = None
+    if opts.get("verdicts") is not None:
+        filters = [None if t is None else make_filter(t, opts.get("file_verdict", "error")) for t in opts["verdicts"]]
     fname = FNAME[fmt]
     base = os.environ.get("VERIF_TMP") or tempfile.gettempdir()
     root = tempfile.mkdtemp(prefix="clv-", dir=base)
@@ -165,16 +207,33 @@ def impl_compare_merge(fmt, ref_text, l10n_text, mode="compare", latin=False, wi
         refp = os.path.join(root, "ref", fname)
         l10p = os.path.join(root, "l10n", fname)
         refb, l10b = to_bytes(ref_text, latin), to_bytes(l10n_text, latin)
-        if refb is not None:
+        if opts.get("ref_is_dir"):
+            os.makedirs(refp)
+            refb = None
+        elif refb is not None:
             with open(refp, "wb") as f:
                 f.write(refb)
-        if l10b is not None:
+        if opts.get("l10n_is_dir"):
+            os.makedirs(l10p)
+            l10b = None
+        elif l10b is not None:
             with open(l10p, "wb") as f:
                 f.write(l10b)
         mergep = os.path.join(root, "merge", "sub", fname) if with_merge else None
+        if opts.get("baseline") and with_merge:
+            # the same comparison with quiet = 0 into another merge path (before the observed run)
+            basep = os.path.join(root, "merge0", "sub", fname)
+            cc0 = Recording(0, filters)
+            try:
+                getattr(cc0, mode if mode in ("compare", "add") else "remove")(File(refp, fname, locale=None), File(l10p, fname, locale="xx"), basep)
+                res["merged_q0"] = open(basep, "rb").read().decode("latin-1") if os.path.exists(basep) else None
+                res["summary_q0"] = [o.toJSON()["summary"].get("xx", {}) for o in cc0.observers]
+            except Exception as e:
+                res["merged_q0_exc"] = "%s: %s" % (type(e).__name__, e)
+            shutil.rmtree(os.path.join(root, "merge0"), ignore_errors=True)
         before = listing(root)
-        hashes = {p: sha(p) for p in (refp, l10p) if os.path.exists(p)}
-        cc = Recording()
+        hashes = {p: sha(p) for p in (refp, l10p) if os.path.isfile(p)}
+        cc = Recording(quiet, filters)
         reff = File(refp, fname, locale=None)
         l10f = File(l10p, fname, locale="xx")
         del _events[:]
@@ -190,6 +249,8 @@ def impl_compare_merge(fmt, ref_text, l10n_text, mode="compare", latin=False, wi
             _armed[0] = False
         res["events"] = [e for e in _events]
         res["report"] = cc.observers.toJSON()
+        res["summary_obs"] = [o.toJSON()["summary"].get("xx", {}) for o in cc.observers]
+        res["listed_missing"] = sum(1 for d in _flat(res["report"].get("details", {})) if "missingEntity" in d)
         try:
             res["details_text"] = cc.observers.serializeDetails()
             res["summary_text"] = cc.observers.serializeSummaries()
@@ -208,7 +269,7 @@ def impl_compare_merge(fmt, ref_text, l10n_text, mode="compare", latin=False, wi
             res["merged_is_l10n"] = (l10b is not None and mb == l10b)
             res["merged_is_ref"] = (refb is not None and mb == refb)
             if refb is not None and fmt != "unknown":
-                cc2 = Recording()
+                cc2 = Recording(0, filters)
                 try:
                     cc2.compare(reff, File(mergep, fname, locale="xx"), None)
                     res["report2"] = cc2.observers.toJSON()
@@ -227,6 +288,178 @@ def impl_compare_merge(fmt, ref_text, l10n_text, mode="compare", latin=False, wi
                 cc3.compare(reff, File(refp, fname, locale="xx"), None)
                 s = cc3.observers.toJSON()["summary"].get("xx", {})
                 res["ref_clean"] = s.get("errors", 0) == 0 and s.get("warnings", 0) == 0
+    finally:
+        shutil.rmtree(root, ignore_errors=True)
+    return res
+
+
+# ---------------------------------------------------------------------------------------------------- round 4
+
+def impl_read_file(fmt, data_latin):
+    """Parser.readFile on a file with exactly these bytes: the text the parser and `merge` work on"""
+    fname = FNAME[fmt]
+    base = os.environ.get("VERIF_TMP") or tempfile.gettempdir()
+    root = tempfile.mkdtemp(prefix="clv-", dir=base)
+    try:
+        path = os.path.join(root, fname)
+        with open(path, "wb") as f:
+            f.write(data_latin.encode("latin-1"))
+        p = parser.getParser(fname)
+        p.readFile(File(path, fname, locale="xx"))
+        text = p.ctx.contents
+        try:
+            enc = text.encode(p.encoding).decode("latin-1")
+        except UnicodeEncodeError:
+            enc = None
+        p2 = parser.getParser(fname)
+        p2.readContents(data_latin.encode("latin-1"))          # the bytes entry point (merge_channels): no newline translation
+        return {"contents": text, "encoded": enc, "encoding": p.encoding, "contents_rc": p2.ctx.contents}
+    finally:
+        shutil.rmtree(root, ignore_errors=True)
+
+
+class _Ent:
+    """stand-in for a parsed entity: `merge` only reads .span, .key and (of reference entities) .all"""
+    def __init__(self, key, span=None, all_=None):
+        self.key = key
+        self.span = span
+        self.all = all_
+
+
+def impl_merge_direct(fmt, caps, l10n_latin, ref_latin, skips, missing, with_merge=True):
+    """ContentComparer.merge called directly: files with exactly these bytes on disk, `ctx` from the real
+    Parser.readFile of the l10n file, generated skips [(start|None, end|None, is_junk, refAll)] and missing [refAll],
+    ANY capability value.  Returns the staged bytes (latin-1 transport) / None, the exception, the fs events."""
+    from compare_locales.keyedtuple import KeyedTuple
+    install_hook()
+    fname = FNAME[fmt]
+    base = os.environ.get("VERIF_TMP") or tempfile.gettempdir()
+    root = tempfile.mkdtemp(prefix="clv-", dir=base)
+    res = {}
+    try:
+        os.makedirs(os.path.join(root, "ref"))
+        os.makedirs(os.path.join(root, "l10n"))
+        refp = os.path.join(root, "ref", fname)
+        l10p = os.path.join(root, "l10n", fname)
+        with open(refp, "wb") as f:
+            f.write(ref_latin.encode("latin-1"))
+        with open(l10p, "wb") as f:
+            f.write(l10n_latin.encode("latin-1"))
+        p = parser.getParser(fname)
+        p.readFile(File(l10p, fname, locale="xx"))
+        ctx = p.ctx
+        ref_ents, miss_keys, skip_objs = [], [], []
+        for i, ra in enumerate(missing):
+            ref_ents.append(_Ent("m%d" % i, None, ra))
+            miss_keys.append("m%d" % i)
+        for i, (s0, e0, isj, ra) in enumerate(skips):
+            if isj:
+                j = parser.Junk(ctx, (s0, e0))
+                skip_objs.append(j)
+            else:
+                ref_ents.append(_Ent("s%d" % i, None, ra))
+                skip_objs.append(_Ent("s%d" % i, (s0, e0)))
+        mergep = os.path.join(root, "merge", "sub", fname) if with_merge else None
+        hashes = {q: sha(q) for q in (refp, l10p)}
+        before = listing(root)
+        cc = ContentComparer()
+        del _events[:]
+        _armed[0] = True
+        try:
+            cc.merge(KeyedTuple(ref_ents), File(refp, fname, locale=None), File(l10p, fname, locale="xx"), mergep,
+                     miss_keys, skip_objs, ctx, caps, p.encoding)
+        except Exception as e:
+            res["exc"] = type(e).__name__
+        finally:
+            _armed[0] = False
+        res["events"] = [e for e in _events]
+        res["root"] = root
+        res["inputs_unchanged"] = all(sha(q) == h for q, h in hashes.items())
+        res["new_paths"] = [q for q in listing(root) if q not in before]
+        res["merged"] = None
+        mp = os.path.join(root, "merge", "sub", fname)
+        if os.path.exists(mp):
+            with open(mp, "rb") as f:
+                res["merged"] = f.read().decode("latin-1")
+        res["contents"] = ctx.contents
+    finally:
+        shutil.rmtree(root, ignore_errors=True)
+    return res
+
+
+def impl_compare_projects(spec):
+    """compareProjects on a temp tree with a merge stage.
+    spec: files = {relpath: [ref bytes|None, l10n bytes|None]} (latin-1 transport), locale, clobber (bool), quiet,
+          stale = [relative paths created beforehand under the merge stage (inside and outside the locale's merge dir)],
+          merge_tpl: where the merge stage lives relative to the root"""
+    from compare_locales.compare import compareProjects
+    from compare_locales.paths import TOMLParser
+    install_hook()
+    base = os.environ.get("VERIF_TMP") or tempfile.gettempdir()
+    root = os.path.realpath(tempfile.mkdtemp(prefix="clv-", dir=base))
+    res = {}
+    try:
+        loc = spec["locale"]
+        refroot = os.path.join(root, "src", "en")
+        l10nbase = os.path.join(root, "l10n")
+        os.makedirs(refroot, exist_ok=True)
+        for rel, (rb, lb) in spec["files"].items():
+            if rb is not None:
+                q = os.path.join(refroot, rel)
+                os.makedirs(os.path.dirname(q), exist_ok=True)
+                with open(q, "wb") as f:
+                    f.write(rb.encode("latin-1"))
+            if lb is not None:
+                q = os.path.join(l10nbase, loc, rel)
+                os.makedirs(os.path.dirname(q), exist_ok=True)
+                with open(q, "wb") as f:
+                    f.write(lb.encode("latin-1"))
+        os.makedirs(os.path.join(l10nbase, loc), exist_ok=True)
+        toml = os.path.join(root, "src", "l10n.toml")
+        with open(toml, "w") as f:
+            f.write('basepath = "."\nlocales = ["%s"]\n[[paths]]\n    reference = "en/**"\n    l10n = "{l10n_base}/{locale}/**"\n' % loc)
+        stage = os.path.join(root, spec.get("merge_tpl", "stage"))
+        for rel in spec.get("stale", []):
+            q = os.path.join(stage, rel)
+            os.makedirs(os.path.dirname(q), exist_ok=True)
+            with open(q, "wb") as f:
+                f.write(b"STALE")
+        cfg = TOMLParser().parse(toml, env={"l10n_base": l10nbase})
+        inputs = {}
+        for d, ds, fs in os.walk(root):
+            if d.startswith(stage):
+                continue
+            for f in fs:
+                inputs[os.path.join(d, f)] = sha(os.path.join(d, f))
+        del _events[:]
+        _armed[0] = True
+        try:
+            obs = compareProjects([cfg], [] if spec.get("all_locales") else [loc], l10nbase, merge_stage=stage, clobber_merge=bool(spec.get("clobber")),
+                                  quiet=int(spec.get("quiet", 0)))
+            res["summary"] = obs.toJSON()["summary"]
+        except Exception as e:
+            res["exc"] = "%s: %s" % (type(e).__name__, e)
+        finally:
+            _armed[0] = False
+        res["events"] = [e for e in _events]
+        res["root"] = root
+        res["stage"] = stage
+        res["inputs_unchanged"] = all(os.path.exists(q) and sha(q) == h for q, h in inputs.items())
+        res["new_outside"] = []
+        for d, ds, fs in os.walk(root):
+            if d.startswith(stage):
+                continue
+            for f in fs:
+                if os.path.join(d, f) not in inputs:
+                    res["new_outside"].append(os.path.relpath(os.path.join(d, f), root))
+        staged = {}
+        if os.path.isdir(stage):
+            for d, ds, fs in os.walk(stage):
+                for f in fs:
+                    q = os.path.join(d, f)
+                    with open(q, "rb") as fh:
+                        staged[os.path.relpath(q, stage)] = fh.read().decode("latin-1")
+        res["staged"] = staged
     finally:
         shutil.rmtree(root, ignore_errors=True)
     return res
